@@ -67,8 +67,9 @@ extern "C" __attribute__((noreturn)) void exit(int code) noexcept {
   _exit(code);
 }
 
+static double g_fake_load = 0.0;
 extern "C" int getloadavg(double loadavg[], int nelem) {
-  for (int i = 0; i < nelem; ++i) loadavg[i] = 0.0;
+  for (int i = 0; i < nelem; ++i) loadavg[i] = g_fake_load;
   return nelem;
 }
 
@@ -126,7 +127,11 @@ RunResult RunNinja(vfs::Disk* d, const RunConfig& cfg, const std::vector<int>& c
   ResetNinjaGlobals();
   clearenv();
   setenv("TERM", "dumb", 1);
-  for (auto& kv : cfg.env) setenv(kv.first.c_str(), kv.second.c_str(), 1);
+  g_fake_load = 0.0;
+  for (auto& kv : cfg.env) {
+    if (kv.first == "VERIF_LOADAVG") { g_fake_load = atof(kv.second.c_str()); continue; }
+    setenv(kv.first.c_str(), kv.second.c_str(), 1);
+  }
 
   static std::vector<std::string> argstore;
   static std::vector<char*> argv;
